@@ -115,13 +115,15 @@ def decode(x, t):
                 return out
         raise Undecodable('seq %r' % (x,))
     if isinstance(t, OptT):
-        if x == 'none' or (isinstance(x, list) and x and x[0] == 'as' and x[1] == 'none'):
+        if (isinstance(x, str) and x.startswith('none')) or \
+                (isinstance(x, list) and x and x[0] == 'as' and str(x[1]).startswith('none')):
             return None
-        if isinstance(x, list) and x and x[0] == 'some':
+        if isinstance(x, list) and x and isinstance(x[0], str) and x[0].startswith('some'):
             return decode(x[1], t.inner)
         raise Undecodable('opt %r' % (x,))
     if isinstance(t, TupT):
-        if isinstance(x, list) and x and x[0] == 'mk' and len(x) == 1 + len(t.items):
+        if isinstance(x, list) and x and isinstance(x[0], str) and x[0].startswith('mk') \
+                and len(x) == 1 + len(t.items):
             return tuple(decode(i, it) for i, it in zip(x[1:], t.items))
         raise Undecodable('tuple %r' % (x,))
     if isinstance(t, ObjT) or t == ANY:
